@@ -801,22 +801,28 @@ func optionImplications(p *Prog) []optImplication {
 func checkListFraming(p *Prog, r *Report, rule string) {
 	r.Rule(rule, "a zero-terminated list of length-prefixed strings (the filter-rule list) never carries an empty string: every Conn.WriteInt32(len(s)) in a function that also writes the terminator WriteInt32(0) is dominated by a test excluding s == \"\" (an empty rule, e.g. -f '', would be read as the end of the list and desynchronise the stream)", 1)
 	n := 0
+	g := p.ModGraph()
+	writesTerm := func(fn *ssa.Function) bool {
+		t := false
+		allCalls(fn, func(c ssa.CallInstruction) {
+			if calleeName(c) == "(*"+pkgWire+".Conn).WriteInt32" {
+				if k, ok := constInt(c.Common().Args[1]); ok && k == 0 {
+					t = true
+				}
+			}
+		})
+		return t
+	}
 	for _, fn := range p.ModFuncs {
 		if fn.Blocks == nil || isTestSupport(pkgPathOfFunc(fn)) {
 			continue
 		}
 		var lens []ssa.CallInstruction
-		term := false
 		allCalls(fn, func(c ssa.CallInstruction) {
 			if calleeName(c) != "(*"+pkgWire+".Conn).WriteInt32" {
 				return
 			}
-			a := c.Common().Args[1]
-			if k, ok := constInt(a); ok && k == 0 {
-				term = true
-				return
-			}
-			if lc, ok := stripConv(a).(*ssa.Call); ok {
+			if lc, ok := stripConv(c.Common().Args[1]).(*ssa.Call); ok {
 				if bi, ok := lc.Common().Value.(*ssa.Builtin); ok && bi.Name() == "len" {
 					if bt, ok := lc.Common().Args[0].Type().Underlying().(*types.Basic); ok && bt.Info()&types.IsString != 0 {
 						lens = append(lens, c)
@@ -824,6 +830,18 @@ func checkListFraming(p *Prog, r *Report, rule string) {
 				}
 			}
 		})
+		if len(lens) == 0 {
+			continue
+		}
+		// the terminator is written by this function or by a direct caller (per-element helper)
+		term := writesTerm(fn)
+		if !term {
+			for _, e := range g.In[fn] {
+				if c, ok := e.Site.(ssa.CallInstruction); ok && !e.Escape && c.Common().StaticCallee() == fn && writesTerm(e.From) {
+					term = true
+				}
+			}
+		}
 		if !term {
 			continue
 		}
